@@ -319,6 +319,22 @@ def resolveIdx (n : Nat) (i : Int) : Option Nat :=
   else if -(n : Int) ≤ i ∧ i < 0 then some (i + n).toNat
   else none
 
+/-- `range(*slice(start, stop, step).indices(n))` as positions (CPython's `PySlice_AdjustIndices`; the same clamping as
+`sliceIndices` of `Model/Spans.lean`); `none` for step 0 (`ValueError`) -/
+def sliceSel (n : Nat) (start stop step : Option Int) : Option (List Int) :=
+  let st := step.getD 1
+  if st = 0 then none
+  else
+    let lower : Int := if st < 0 then -1 else 0
+    let upper : Int := if st < 0 then (n : Int) - 1 else n
+    let adj : Int → Int := fun s => if s < 0 then max (s + n) lower else min s upper
+    let a := match start with | none => if st < 0 then upper else lower | some s => adj s
+    let b := match stop with | none => if st < 0 then lower else upper | some s => adj s
+    let count : Nat :=
+      if st > 0 then (if a < b then ((b - a + st - 1) / st).toNat else 0)
+      else (if b < a then ((a - b + (-st) - 1) / (-st)).toNat else 0)
+    some ((List.range count).map (fun (i : Nat) => a + (i : Int) * st))
+
 /-- `[variants[k] for k in idxs]`; `none` when an index is out of range (`IndexError`) -/
 def selectVars (vs : List Ref) : List Int → Option (List Ref)
   | [] => some []
